@@ -20,12 +20,14 @@ FILES = ["a.cmake", "d1/b.cmake", "d1/d2/c.cmake", "d1/d2/d3/x.y-z.cmake", "mods
          "d1/データ.cmake", "cafe\u0301.cmake",      # East Asian wide characters, a combining mark
          "trail_.cmake", "_lead_.cmake", "d1/st*r|p`q.cmake",     # characters that are reST inline markup
          "d1/Up.CMake", "d1/up.cmake",       # a mixed-case extension is not '.cmake': it stays in the name (next to its lower-case twin)
-         "d1/d2/index.cmake"]               # its page takes the place of the directory index (K4); it is a module page all the same
+         "d1/d2/index.cmake",
+         "d1/win\\paths.cmake", "d1/win/paths.cmake"]      # a backslash is an ordinary character of a POSIX file name               # its page takes the place of the directory index (K4); it is a module page all the same
 SEPS = [".", "/", "::", "-"]
 
 
 def tree():
-    return {"in/" + f: fsbox.cmake_content(f) for f in FILES}
+    # (the content mentions the file's name: a backslash there would be an invalid escape sequence in CMake)
+    return {"in/" + f: fsbox.cmake_content(f.replace("\\", "-bs-")) for f in FILES}
 
 
 def norm(s, sep):
@@ -77,7 +79,9 @@ DIR_SPELLINGS = [("abs", "{root}/work/in", "work"), ("rel", "in", "work"), ("sla
                  ("dot-slash", "./in", "work"), ("dot", ".", "work/in"), ("parent", "../work/in", "work"),
                  ("abs-slash", "{root}/work/in/", "home"),
                  # the input directory reached through a symbolic link: it is named as it was given
-                 ("symlink", "{root}/work/linkdir", "work"), ("symlink-rel", "linkdir/", "work")]
+                 ("symlink", "{root}/work/linkdir", "work"), ("symlink-rel", "linkdir/", "work"),
+                 # directory names with dots (a version number, a dotted package name)
+                 ("symlink-dots", "{root}/work/acme.core-3.25", "work"), ("symlink-dots-rel", "acme.core-3.25/", "work")]
 FILE_SPELLINGS = [("abs", "{root}/work/in/{f}", "work"), ("rel", "in/{f}", "work"), ("from-dir", "{b}", "work/in/{d}"),
                   ("symlink", "{root}/work/links/{b}", "work")]
 
@@ -91,6 +95,7 @@ def run_config(job):
     try:
         box.build(tree())
         os.symlink("in", box.path("work", "linkdir"))
+        os.symlink("in", box.path("work", "acme.core-3.25"))
         os.makedirs(box.path("work", "links"))
         for fpath in FILES[:3]:
             # a link with the file's own base name (the base name is what the page is named after)
@@ -124,7 +129,8 @@ def run_config(job):
                     continue
                 if pages[rst].lstrip("\n")[:1] != hc:
                     msgs.append(f"frame: title of {fpath} is not framed with the first configured header character {hc!r}")
-                pre = explicit if explicit is not None else ("linkdir" if name.startswith("symlink") else "in")
+                pre = explicit if explicit is not None else ("acme.core-3.25" if name.startswith("symlink-dots") else
+                                                              "linkdir" if name.startswith("symlink") else "in")
                 if not derive_ok(t, pre, sep, fpath.split("/"), ext_t):
                     msgs.append(f"title: {t!r} for {fpath} is not prefix {pre!r} + separator {sep!r} + relative path "
                                 f"(extension kept: {ext_t})   [spelling {name}]")
